@@ -2,11 +2,11 @@
 (fdd.SD_svalsvec, fdd.FDD_mpe; FDD, FDD_MS, first stage of EFDD/FSDD)."""
 import numpy as np
 
-from common import R, Rvec, Cx, fl, cfl
+from common import R, Rvec, Cx, fl, cfl, ModelError
 
 from common import wiring_pre_build as pre_build  # noqa: E402,F401
 
-LEAN_MODULES = ["PyomaVerif.Props.C06", "PyomaVerif.Mutants.C06", "PyomaVerif.Props.WiringMpe", "PyomaVerif.Props.C06C13"]
+LEAN_MODULES = ["PyomaVerif.Props.C06", "PyomaVerif.Mutants.C06", "PyomaVerif.Props.WiringMpe", "PyomaVerif.Props.C06C13", "PyomaVerif.Props.C06Faithful"]
 THEOREMS = [
     # call-site wiring of the class layer, regenerated from /repo on every run (translate_wiring.py)
     "PV.WiringMpe.C06_fdd_mpe_wiring",
@@ -46,6 +46,12 @@ THEOREMS = [
     "PV.C06C13.ex_leading_per",
     "PV.C06C13.ex_leading_cor",
     "PV.C06C13.ex_dec_per",
+    # depth round: faithfulness of the stored decomposition, about Efdd.svalsvec (svd and sqrt applied inside the model)
+    "PV.C06Faithful.C06_sval_faithful",
+    "PV.C06Faithful.C06_svec_faithful",
+    "PV.C06Faithful.C06_decomposition",
+    "PV.C06Faithful.C06_gram",
+    "PV.C06Faithful.C06_diagonalises",
 ]
 RULE = (
     "correspondence: fdd.FDD_mpe vs Fdd.fddMpe on random increasing grids (uniform k*df and irregular), random "
@@ -60,11 +66,16 @@ RULE = (
     "oracle stream 3 (C06 o C13, end to end on the real code): channels a_i*s(t) (s a multi-sine or band-passed noise; a real with a negative and a "
     "near-zero component) through fdd.SD_est (per and cor) + SD_svalsvec + FDD_mpe and through SingleSetup/FDD.run/mpe: Sy = S(k) a a^T at every line "
     "(1e-11 of the peak), second singular value <= 1e-9 x first at the picked line, MAC(returned shape, a) >= 1-1e-9, shape = a/a[argmax|a|] (1e-9); "
-    "a sum of 2-3 such responses gives Sy = Phi S Phi^T (1e-11 of the peak)"
+    "a sum of 2-3 such responses gives Sy = Phi S Phi^T (1e-11 of the peak). "
+    "depth round (Props/C06Faithful): fdd.SD_svalsvec vs the composed model Efdd.svalsvec, np.linalg.svd and np.sqrt recorded WITH their arguments "
+    "and handed over as the library routines (svd looked up by exact match of its argument with SD[:, :, k], sqrt by its argument): exact equality; "
+    "every recorded SVD is checked against the contract the theorems assume (U^H U = I, V^H V = I, A = U diag(S) V^H at 1e-12, S sorted non-negative)"
 )
 EXTRA_TRUSTED = [
     "np.linalg.svd contract (U unitary, S non-negative non-increasing, A = U diag(S) V^H): hypotheses of C06_convention / C06_faithful_partial, validated numerically by the oracle at 1e-9",
     "np.abs of a complex number replaced by its square in the model's argmax (monotone)",
+    "C06Faithful: SvdContract / SqrtOn are hypotheses (the theorems derive non-negativity, ordering, unitarity of S_vec and the decompositions from them); "
+    "every np.linalg.svd call recorded by the correspondence is checked against SvdContract at 1e-12 (ctx.contract)",
 ]
 ASSUMPTIONS = [
     "near-ties (relative 1e-9) of band-edge distances, singular-value ratios and component magnitudes are not judged",
@@ -254,16 +265,28 @@ def correspondence(ctx):
             SD = np.einsum("ikf,jkf->ijf", SD, SD.conj())  # Hermitian PSD
         rec = []
 
+        rec_full, rec_sqrt = [], []
+        real_sqrt = np.sqrt
+
         def spy(a, *args, **kw):
             out = real_svd(a, *args, **kw)
             rec.append((np.array(out[0]), np.array(out[1])))
+            rec_full.append((np.array(a), args, dict(kw), np.array(out[0]), np.array(out[1]), np.array(out[2])))
+            return out
+
+        def spy_sqrt(x, *args, **kw):
+            out = real_sqrt(x, *args, **kw)
+            if not args and not kw and np.isrealobj(x):
+                rec_sqrt.extend(zip(np.ravel(np.asarray(x, float)).tolist(), np.ravel(np.asarray(out, float)).tolist()))
             return out
 
         np.linalg.svd = spy
+        np.sqrt = spy_sqrt
         try:
             Sval, Svec = fdd.SD_svalsvec(SD)
         finally:
             np.linalg.svd = real_svd
+            np.sqrt = real_sqrt
         out = ctx.model(
             "svalsvec_place",
             nr=nr,
@@ -276,6 +299,33 @@ def correspondence(ctx):
         ok = len(rec) == nf and Sval.shape == MS.shape and Svec.shape == MV.shape and np.array_equal(Sval, MS) and np.array_equal(Svec, MV)
         ctx.corr("fdd.SD_svalsvec", bool(ok), {"SD": [[[str(z) for z in r2] for r2 in r1] for r1 in SD.tolist()]}, None, None, (nr, nc, nf))
         ctx.count("svalsvec_rect" if nr != nc else "svalsvec_square")
+        # the composed model Efdd.svalsvec: the library calls are looked up by their ARGUMENTS
+        seen, sq_tab = set(), []
+        for a_, v_ in rec_sqrt:
+            if a_ not in seen:
+                seen.add(a_)
+                sq_tab.append([R(a_), R(v_)])
+        try:
+            out2 = ctx.model(
+                "svalsvec_all", nr=nr, nc=nc, nf=nf,
+                SD=[[[Cx(SD[i, j, l]) for l in range(nf)] for j in range(nc)] for i in range(nr)],
+                svd=[{"A": [[Cx(z) for z in row] for row in a_], "U": [[Cx(z) for z in row] for row in U_], "S": Rvec(S_)} for (a_, _, _, U_, S_, _) in rec_full],
+                sqrt=sq_tab,
+            )
+            MS2 = np.array([[[fl(v) for v in r2] for r2 in r1] for r1 in out2["Sval"]]).reshape(nc, nc, nf)
+            MV2 = np.array([[[cfl(v) for v in r2] for r2 in r1] for r1 in out2["Svec"]]).reshape(nr, nr, nf)
+            ok2 = (len(rec_full) == nf and all(c[1] == () and c[2] == {} for c in rec_full)
+                   and Sval.shape == MS2.shape and Svec.shape == MV2.shape and np.array_equal(Sval, MS2) and np.array_equal(Svec, MV2))
+            why = None
+        except ModelError as e:
+            ok2, why = False, str(e)
+        ctx.corr("fdd.SD_svalsvec[composed]", bool(ok2), {"SD": [[[str(z) for z in r2] for r2 in r1] for r1 in SD.tolist()]}, why, None, (nr, nc, nf))
+        for (a_, _, _, U_, S_, Vh_) in rec_full[:2]:
+            sc = max(np.abs(a_).max(), 1e-300)
+            ctx.contract("svd_unitary_U", np.abs(U_.conj().T @ U_ - np.eye(len(U_))).max(), 1e-12, "U^H U = I")
+            ctx.contract("svd_unitary_V", np.abs(Vh_ @ Vh_.conj().T - np.eye(len(Vh_))).max(), 1e-12, "V^H V = I")
+            ctx.contract("svd_decomposition", np.abs((U_[:, : len(S_)] * S_) @ Vh_ - a_).max() / sc, 1e-12, "A = U diag(S) V^H")
+            ctx.contract("svd_sorted_nonneg", 0.0 if (np.all(S_ >= 0) and np.all(np.diff(S_) <= 0)) else 1.0, 0.5, "S >= 0, non-increasing")
 
 
 # ----------------------------------------------------------------------------- oracle
